@@ -59,3 +59,26 @@ Definition mhn_neg_v2 (b g m : R) : R := m * (b * m - g).
 Definition mhn_neg_x (b g m t : R) : R := m * Rpower t (mhn_neg_v1 b g m).
 Definition mhn_neg_logacc (b g m t : R) : R :=
   mhn_neg_v2 b g m * t - b * mhn_neg_x b g m t * mhn_neg_x b g m t + g * mhn_neg_x b g m t.
+
+(* ------------- InverseGamma and Beta (deepening round) ------------- *)
+(* documented density of the class:  (x-loc)^(-a-1) exp(-scale/(x-loc)) / (scale^(-a) Gamma(a)),  Gam = Gamma(a) *)
+Definition cuqi_invgamma_pdf (Gam a loc scale x : R) : R :=
+  Rpower (x - loc) (- a - 1) * exp (- scale / (x - loc)) / (Rpower scale (- a) * Gam).
+(* scipy.stats.invgamma: standard density y^(-a-1) exp(-1/y) / Gamma(a), then the loc/scale family f((x-loc)/scale)/scale *)
+Definition sp_invgamma_std_pdf (Gam a y : R) : R := Rpower y (- a - 1) * exp (- 1 / y) / Gam.
+Definition sp_invgamma_pdf (Gam a loc scale x : R) : R := sp_invgamma_std_pdf Gam a ((x - loc) / scale) / scale.
+(* how scipy draws: X = loc + scale / G with G ~ Gamma(a, 1), density g^(a-1) exp(-g) / Gamma(a) *)
+Definition std_gamma_pdf (Gam a g : R) : R := Rpower g (a - 1) * exp (- g) / Gam.
+
+(* documented density of Beta:  x^(a-1) (1-x)^(b-1) Gamma(a+b) / (Gamma(a) Gamma(b)) *)
+Definition cuqi_beta_pdf (Ga Gb Gab a b x : R) : R := Rpower x (a - 1) * Rpower (1 - x) (b - 1) * Gab / (Ga * Gb).
+(* scipy.stats.beta / numpy beta:  x^(a-1) (1-x)^(b-1) / B(a,b) *)
+Definition sp_beta_pdf (Bab a b x : R) : R := Rpower x (a - 1) * Rpower (1 - x) (b - 1) / Bab.
+
+(* ------------- MHN scheme 3: density of X = m T^v1, T ~ Gamma(shape a v1, rate v2) ------------- *)
+(* T as a function of x, and its derivative *)
+Definition mhn_neg_t (b g m x : R) : R := Rpower (x / m) (/ mhn_neg_v1 b g m).
+Definition mhn_neg_logg (lnGam a b g m x : R) : R :=
+  let v1 := mhn_neg_v1 b g m in let v2 := mhn_neg_v2 b g m in let t := mhn_neg_t b g m x in
+  ((a * v1 - 1) * ln t - v2 * t + (a * v1) * ln v2 - lnGam)          (* log Gamma(a v1, rate v2) density at t *)
+  + (ln (/ (v1 * m)) + (/ v1 - 1) * ln (x / m)).                      (* log dt/dx *)
